@@ -859,6 +859,7 @@ pub fn run(rep: &mut Report) {
     rep.sections.insert("counters".into(), json!(counters));
     println!("[vf_coll] C08 counters: {counters:?}");
     let mut st = vf_explore::Stats::new();
-    all.emit(&mut st, &|case| replay_case(case, false));
+    let listed = all.emit(&mut st, "C08", &|case| replay_case(case, false));
     rep.section("violation_classes", st);
+    rep.sections.insert("violation_classes_all".into(), listed);
 }
